@@ -166,6 +166,8 @@ type SimConfig struct {
 	DerefEvents bool
 	// IndexEvents: record every run-time-checked index into a slice or string as an event.
 	IndexEvents bool
+	// ArrayIndexEvents: also record indexes into arrays whose index is not a constant.
+	ArrayIndexEvents bool
 	// MaxSteps bounds the total number of instructions simulated (default 20 million).
 	MaxSteps int
 	// MaxVisits: how often a block may be entered per activation (default 3:
@@ -1163,10 +1165,14 @@ func (s *Sim) simInstrs(fr *Frame, st *State, b *ssa.BasicBlock, from int, k con
 			fr.env[x] = &Term{Op: "ia", Type: x.Type(), Args: []*Term{iaBase, iaIdx}}
 			if _, isSlice := x.X.Type().Underlying().(*types.Slice); isSlice && s.Cfg.IndexEvents {
 				s.emit(st, fr, &Event{Kind: "index", Instr: x, Args: []*Term{s.val(fr, st, x.X), s.val(fr, st, x.Index)}})
+			} else if _, isConst := x.Index.(*ssa.Const); !isSlice && !isConst && s.Cfg.ArrayIndexEvents {
+				s.emit(st, fr, &Event{Kind: "index", Instr: x, Args: []*Term{s.val(fr, st, x.X), s.val(fr, st, x.Index)}})
 			}
 		case *ssa.Index:
 			base, idx := s.val(fr, st, x.X), s.val(fr, st, x.Index)
 			if isStringType(x.X.Type()) && s.Cfg.IndexEvents {
+				s.emit(st, fr, &Event{Kind: "index", Instr: x, Args: []*Term{base, idx}})
+			} else if _, isConst := x.Index.(*ssa.Const); !isStringType(x.X.Type()) && !isConst && s.Cfg.ArrayIndexEvents {
 				s.emit(st, fr, &Event{Kind: "index", Instr: x, Args: []*Term{base, idx}})
 			}
 			if i, ok := idx.IntVal(); ok && base.Op == "arrayval" && i >= 0 && i < int64(len(base.Args)) {
@@ -1781,6 +1787,14 @@ func isHelper(callee *ssa.Function) bool {
 	}
 	obj := callee.Object()
 	if obj == nil || obj.Exported() {
+		return false
+	}
+	// the converters are atoms only where the rules know them by that name (a per-item helper that happens
+	// to be called convertConfig in another package is an ordinary helper)
+	switch callee.Name() {
+	case "convertConfig":
+		return !inPkg(callee, "server")
+	case "convertConfigs":
 		return false
 	}
 	return !semanticAtoms[callee.Name()]
